@@ -160,130 +160,148 @@ Fixpoint remove_keys (ks : list str) (kv : list (str * json)) : list (str * json
   | (k, v) :: r => if mem k ks then remove_keys ks r else (k, v) :: remove_keys ks r
   end.
 
+(* ---------- the Unmarshal method laid out by json_formatter.generate ---------- *)
+(* [decf]: decoding of component types (the recursive knot is tied in [dec] below);
+   [zf]: zero values;  [dvf]: default literals *)
+Section Method.
+Variable decf : gty -> json -> outcome gval.
+Variable zf : gty -> gval.
+Variable dvf : gty -> json -> option gval.
+
+(* json.Unmarshal(value, &plain) for the method-less shadow type of a struct *)
+Definition plain_fields (fs : list field) (j : json) : outcome gval :=
+  match j with
+  | JNull => Ok (GSt (map (fun fl => (f_name fl, zf (f_ty fl))) fs))
+  | JObj kv =>
+      obind (omap (fun fl =>
+               if f_addl fl then Ok (f_name fl, zf (f_ty fl))
+               else match lookup (f_json fl) kv with
+                    | Some x => obind (decf (f_ty fl) x) (fun v => Ok (f_name fl, v))
+                    | None => Ok (f_name fl, zf (f_ty fl))
+                    end) fs)
+            (fun vs => Ok (GSt vs))
+  | _ => Err
+  end.
+
+Definition raw_t := option (option (list (str * json))).   (* None: `raw` not declared; Some None: nil map *)
+
+(* one validator that runs after the typed decode *)
+Definition after_step (raw : raw_t) (st : gval) (v : validator) : outcome gval :=
+  match v with
+  | VRequired _ | VAnyOf _ => Ok st
+  | VNullType fname _ depth =>
+      match get_plain fname st with
+      | Some x => obind (check_null depth x) (fun _ => Ok st)
+      | None => Crash
+      end
+  | VDefault fname jname ty dv =>
+      match raw with
+      | None => Crash                   (* `raw` undeclared *)
+      | Some r =>
+          let missing := match r with
+                         | None => true
+                         | Some kv => match lookup jname kv with None | Some JNull => true | _ => false end
+                         end in
+          if missing then
+            match dvf ty dv with
+            | Some d => match set_plain fname d st with Some st' => Ok st' | None => Crash end
+            | None => Crash             (* literal not assignable: does not compile *)
+            end
+          else Ok st
+      end
+  | VArray fname _ depth mn mx =>
+      match get_plain fname st with
+      | Some x => obind (check_array depth mn mx x) (fun _ => Ok st)
+      | None => Crash
+      end
+  | VString fname _ nillable mn mx p =>
+      match get_plain fname st, nillable with
+      | Some GNil, true => Ok st
+      | Some (GP (GS s)), true => obind (check_string mn mx p s) (fun _ => Ok st)
+      | Some (GS s), false => obind (check_string mn mx p s) (fun _ => Ok st)
+      | _, _ => Crash
+      end
+  | VNumeric fname _ nillable rnd mult b =>
+      let chk x := match num_of x with
+                   | Some q => if accept_numeric rnd mult b q then Ok st else Err
+                   | None => Crash
+                   end in
+      match get_plain fname st, nillable with
+      | Some GNil, true => Ok st
+      | Some (GP x), true => chk x
+      | Some x, false => match x with GI _ | GF _ => chk x | _ => Crash end
+      | _, _ => Crash
+      end
+  end.
+
+Definition run_after (vs : list validator) (raw : raw_t) (st : gval) : outcome gval :=
+  fold_left (fun acc v => obind acc (fun st => after_step raw st v)) vs (Ok st).
+
+(* one validator that runs before the typed decode *)
+Definition before_step (raw : raw_t) (j : json) (v : validator) : outcome unit :=
+  match v with
+  | VRequired k =>
+      match raw with
+      | Some (Some kv) => match lookup k kv with Some _ => Ok tt | None => Err end
+      | Some None => Ok tt
+      | None => Crash
+      end
+  | VAnyOf branches =>
+      let results := map (fun bt => decf bt j) branches in
+      if existsb (fun r => match r with Crash => true | _ => false end) results then Crash
+      else if existsb (fun r => match r with NoFuel => true | _ => false end) results then NoFuel
+      else if existsb (fun r => match r with Ok _ => true | _ => false end) results then Ok tt else Err
+  | _ => Ok tt
+  end.
+
+Definition run_before (vs : list validator) (raw : raw_t) (j : json) : outcome unit :=
+  fold_left (fun acc v => obind acc (fun _ => before_step raw j v)) vs (Ok tt).
+
+(* the additional-properties block (json_formatter.go:70-89) *)
+Definition addl_block (fl : list field) (raw : raw_t) (st : gval) : outcome gval :=
+  match find f_addl fl with
+  | None => Ok st
+  | Some fa =>
+      match raw with
+      | None => Crash                                    (* `raw` undeclared (D5) *)
+      | Some r =>
+          let known := map f_name fl ++ map f_json fl in
+          match f_ty fa, r with
+          | TIface, None => Ok st                        (* Decode(nil map, &interface{}) *)
+          | TIface, Some kv =>
+              match set_plain (f_name fa) (GJ (JObj (remove_keys known kv))) st with Some st' => Ok st' | None => Crash end
+          | TMap vt, None => Crash                       (* nil map into a typed map panics (D30) *)
+          | TMap vt, Some kv =>
+              obind (omap (fun p => obind (ms_decode vt (snd p)) (fun v => Ok (fst p, v))) (remove_keys known kv))
+                    (fun m => match set_plain (f_name fa) (GM m) st with Some st' => Ok st' | None => Crash end)
+          | _, _ => Crash
+          end
+      end
+  end.
+
+(* [fs]: Some fields for a struct, None for a named non-struct type whose underlying type is [under] *)
+Definition run_method (fs : option (list field)) (under : gty) (vs : list validator) (j : json) : outcome gval :=
+  let need_raw := existsb v_before vs || existsb v_raw_after vs in
+  let rawo : outcome raw_t :=
+    if need_raw then
+      match j with
+      | JNull => Ok (Some None)
+      | JObj kv => Ok (Some (Some kv))
+      | _ => Err
+      end
+    else Ok None in
+  obind rawo (fun raw =>
+  obind (run_before vs raw j) (fun _ =>
+  obind (match fs with Some fl => plain_fields fl j | None => decf under j end) (fun st =>
+  obind (run_after vs raw st) (fun st =>
+  match fs with Some fl => addl_block fl raw st | None => Ok st end)))).
+End Method.
+
 (* ---------- decoding ---------- *)
 Fixpoint dec (fuel : nat) (t : gty) (j : json) {struct fuel} : outcome gval :=
   match fuel with
   | O => NoFuel
   | S f =>
-  let plain_fields (fs : list field) : outcome gval :=
-    (* json.Unmarshal(value, &plain) for the method-less shadow type *)
-    match j with
-    | JNull => Ok (zero (S f) (TStruct [] fs None))
-    | JObj kv =>
-        obind (omap (fun fl =>
-                 if f_addl fl then Ok (f_name fl, zero f (f_ty fl))
-                 else match lookup (f_json fl) kv with
-                      | Some x => obind (dec f (f_ty fl) x) (fun v => Ok (f_name fl, v))
-                      | None => Ok (f_name fl, zero f (f_ty fl))
-                      end) fs)
-              (fun vs => Ok (GSt vs))
-    | _ => Err
-    end in
-  let run_after (vs : list validator) (raw : option (option (list (str * json)))) (st : gval) : outcome gval :=
-    fold_left (fun acc v => obind acc (fun st =>
-      match v with
-      | VRequired _ | VAnyOf _ => Ok st
-      | VNullType fname _ depth =>
-          match get_plain fname st with
-          | Some x => obind (check_null depth x) (fun _ => Ok st)
-          | None => Crash
-          end
-      | VDefault fname jname ty dv =>
-          match raw with
-          | None => Crash                   (* `raw` undeclared *)
-          | Some r =>
-              let missing := match r with
-                             | None => true
-                             | Some kv => match lookup jname kv with None | Some JNull => true | _ => false end
-                             end in
-              if missing then
-                match default_val (S f) ty dv with
-                | Some d => match set_plain fname d st with Some st' => Ok st' | None => Crash end
-                | None => Crash             (* literal not assignable: does not compile *)
-                end
-              else Ok st
-          end
-      | VArray fname _ depth mn mx =>
-          match get_plain fname st with
-          | Some x => obind (check_array depth mn mx x) (fun _ => Ok st)
-          | None => Crash
-          end
-      | VString fname _ nillable mn mx p =>
-          match get_plain fname st, nillable with
-          | Some GNil, true => Ok st
-          | Some (GP (GS s)), true => obind (check_string mn mx p s) (fun _ => Ok st)
-          | Some (GS s), false => obind (check_string mn mx p s) (fun _ => Ok st)
-          | _, _ => Crash
-          end
-      | VNumeric fname _ nillable rnd mult b =>
-          let chk x := match num_of x with
-                       | Some q => if accept_numeric rnd mult b q then Ok st else Err
-                       | None => Crash
-                       end in
-          match get_plain fname st, nillable with
-          | Some GNil, true => Ok st
-          | Some (GP x), true => chk x
-          | Some x, false => match x with GI _ | GF _ => chk x | _ => Crash end
-          | _, _ => Crash
-          end
-      end)) vs (Ok st) in
-  let run_method (fs : option (list field)) (under : gty) (vs : list validator) : outcome gval :=
-    (* json_formatter.generate *)
-    let need_raw := existsb v_before vs || existsb v_raw_after vs in
-    let rawo : outcome (option (option (list (str * json)))) :=
-      if need_raw then
-        match j with
-        | JNull => Ok (Some None)
-        | JObj kv => Ok (Some (Some kv))
-        | _ => Err
-        end
-      else Ok None in
-    obind rawo (fun raw =>
-    (* before validators *)
-    obind (fold_left (fun acc v => obind acc (fun _ =>
-             match v with
-             | VRequired k =>
-                 match raw with
-                 | Some (Some kv) => match lookup k kv with Some _ => Ok tt | None => Err end
-                 | Some None => Ok tt
-                 | None => Crash
-                 end
-             | VAnyOf branches =>
-                 let results := map (fun bt => dec f bt j) branches in
-                 if existsb (fun r => match r with Crash => true | _ => false end) results then Crash
-                 else if existsb (fun r => match r with NoFuel => true | _ => false end) results then NoFuel
-                 else if existsb (fun r => match r with Ok _ => true | _ => false end) results then Ok tt else Err
-             | _ => Ok tt
-             end)) vs (Ok tt)) (fun _ =>
-    obind (match fs with
-           | Some fl => plain_fields fl
-           | None => dec f under j
-           end) (fun st =>
-    obind (run_after vs raw st) (fun st =>
-    (* the additional-properties block *)
-    match fs with
-    | Some fl =>
-        match find f_addl fl with
-        | None => Ok st
-        | Some fa =>
-            match raw with
-            | None => Crash                                    (* `raw` undeclared (D5) *)
-            | Some r =>
-                let known := map f_name fl ++ map f_json fl in
-                match f_ty fa, r with
-                | TIface, None => Ok st                        (* Decode(nil map, &interface{}) *)
-                | TIface, Some kv =>
-                    match set_plain (f_name fa) (GJ (JObj (remove_keys known kv))) st with Some st' => Ok st' | None => Crash end
-                | TMap vt, None => Crash                       (* nil map into a typed map panics (D30) *)
-                | TMap vt, Some kv =>
-                    obind (omap (fun p => obind (ms_decode vt (snd p)) (fun v => Ok (fst p, v))) (remove_keys known kv))
-                          (fun m => match set_plain (f_name fa) (GM m) st with Some st' => Ok st' | None => Crash end)
-                | _, _ => Crash
-                end
-            end
-        end
-    | None => Ok st
-    end)))) in
   match t with
   | TString => match j with JStr s => Ok (GS s) | JNull => Ok (GS []) | _ => Err end
   | TBool => match j with JBool b => Ok (GB b) | JNull => Ok (GB false) | _ => Err end
@@ -316,12 +334,12 @@ Fixpoint dec (fuel : nat) (t : gty) (j : json) {struct fuel} : outcome gval :=
       end
   | TStruct name fs plan =>
       match name, plan with
-      | _ :: _, Some vs => run_method (Some fs) t vs
-      | _, _ => plain_fields fs
+      | _ :: _, Some vs => run_method (dec f) (zero f) (default_val (S f)) (Some fs) t vs j
+      | _, _ => plain_fields (dec f) (zero f) fs j
       end
   | TNamed _ u plan =>
       match plan with
-      | Some vs => run_method None u vs
+      | Some vs => run_method (dec f) (zero f) (default_val (S f)) None u vs j
       | None => dec f u j
       end
   | TEnum _ c w vals =>
